@@ -74,7 +74,6 @@ pub fn dash_path(path: &Path, dash_array: &[f32], mut dash_offset: f32) -> Path 
             PathOp::MoveTo(pt) => {
                 cur_pt = Some(pt);
                 start_point = Some(pt);
-                dashed.move_to(pt.x, pt.y);
 
                 // flush the previous initial segment
                 if initial_segment.len() > 0 {
@@ -83,6 +82,8 @@ pub fn dash_path(path: &Path, dash_array: &[f32], mut dash_offset: f32) -> Path 
                         dashed.line_to(initial_segment[i].x, initial_segment[i].y);
                     }
                 }
+                // and only then start the new subpath, so that what it emits continues from its own start
+                dashed.move_to(pt.x, pt.y);
                 is_first_segment = true;
                 initial_segment = Vec::new();
                 first_dash = true;
